@@ -349,6 +349,23 @@ def _play(sc, base, bad):
             f.write("\n".join(sc["ign_file"]) + "\n")
         with open(os.path.join(tmp, "nodr", "ign.txt"), "w") as f:
             f.write("\n".join(sc["ign_file"]) + "\n")
+    # ---- runs between the renames and the -dr run that already record some of the new paths (the statement does not
+    # exempt them: the files ARE recorded files that were renamed, and their old paths are still missing)
+    for step in sc.get("mid", ()):
+        if step[0] == "sf-new":
+            sel = [b for a, b in renames if not step[1] or a in step[1]]
+            args = [root] + list(step[2])
+            for b in sel:
+                args += ["-sf", os.path.join(root, b)]
+            code, out, exc = W.run("create", args)
+            if code != 0 or exc is not None:
+                bad(f"between: create -sf of the new paths {[posix(b) for b in sel]} exits {code} ({exc!r}): {out[-200:]}", "mid/sf-exit")
+                return
+        elif step[0] == "plain":
+            code, out, exc = W.run("create", [root] + list(step[1]))
+            if exc is not None or code not in (0, 10):
+                bad(f"between: create without -dr after the renames exits {code} ({exc!r}), expected 10 (missing): {out[-200:]}", "mid/plain-exit")
+                return
     if sc["crash"] is not None:
         crash_then_continue(sc, tmp, root, bad)
     ok = run_dr_and_check(sc, tmp, root, roots, renames, inp, bad, after_crash=sc["crash"] is not None)
@@ -755,6 +772,21 @@ def gen_cases(run):
                 mv = mv + [("late1.bin", "late1 moved.bin"), ("A/late2.bin", "B/late2.bin")]
             sc = scenario(f"hist/{hname}/{lname}", ("hist", hname, lname), deep, [], pre=pre, renames=mv, newfiles={"B/unrel.txt": "unrelated"}, dr=drf, full=True)
             sc["own_g1"] = True
+            cases.append(sc)
+    # ---- (4a) a run between the renames and the -dr run has already recorded (some of) the new paths: -sf on the new
+    # names, or a plain create that reported the old names missing (exit 10) and sealed the new ones
+    for lname, mv in layouts.items():
+        for mname, mid in [
+            ("sf-first", [("sf-new", [mv[0][0]], h(["md5"]))]),
+            ("sf-all", [("sf-new", [], h(["md5"]))]),
+            ("plain", [("plain", h(["md5"]))]),
+            ("plain-twice", [("plain", h(["md5"])), ("plain", h(["md5"]))]),
+        ]:
+            if not thorough and mname == "plain-twice" and lname != "stay":
+                continue
+            sc = scenario(f"mid/{mname}/{lname}", ("mid", mname, lname), deep, [], pre=[("create", h(["md5"]))], renames=mv, newfiles={"B/unrel.txt": "unrelated"}, dr=h(["md5"]), full=True)
+            sc["own_g1"] = True
+            sc["mid"] = mid
             cases.append(sc)
     # rename back to the first name (one step per generation)
     for lname in ("back",):
